@@ -137,6 +137,7 @@ def correspondence(ctx: core.Ctx) -> None:
         vc_engine.run_pairs(ctx, pairs[k:k + 2000], "gen", WHICH)
     edges = V.wildcard_edge_unions()
     vc_engine.run_pairs(ctx, [(e, "*") for e in edges] + [(e, ctx.rng.choice(edges)) for e in edges], "wildcard-edges", WHICH)
+    vc_engine.run_pairs(ctx, V.pin_at_end_pairs(), "pin-at-end", WHICH)
     fam = V.gen_family_pairs(ctx.rng, ctx.budget(800, 20000))
     for k in range(0, len(fam), 2000):
         vc_engine.run_pairs(ctx, fam[k:k + 2000], "release-family", WHICH)
